@@ -249,6 +249,19 @@ def text_reader_evaluated(F):
     return _WCACHE[key][0]
 
 
+def binary_reader_evaluated(F):
+    key = (id(F), "rbin")
+    if key not in _WCACHE:
+        from . import rmodel
+        try:
+            R, err = rmodel.binary_reader(F)
+        except RecursionError:
+            R, err = None, "recursion"
+        _WCACHE[key] = (R, err)
+        _WCACHE[(id(F), "rbin", "keep")] = F
+    return _WCACHE[key][0]
+
+
 def text_writer(F):
     """Writer model of store_into_str_bytes: by abstract evaluation when the function can be evaluated completely (wmodel), else by
     the write idioms below."""
